@@ -1,7 +1,8 @@
 #!/bin/bash
 # usage: tools/seed_eval.sh <seed-dir-with patch.diff+demo.py> <name> <property> [check ids...]
 # Confirms a seeded change in a scratch worktree: (1) repo baseline still passes, (2) demo fails with / passes without the change,
-# (3) runs the given checks against the changed tree (GOTRANX_SRC).  Writes /verif/seeded/<name>/{patch.diff,demo.py,NOTES.md,meta.json}.
+# (3) runs the given checks against the changed tree (GOTRANX_SRC).  Writes $ROOT/seeded/<name>/{patch.diff,demo.py,NOTES.md,meta.json}.
+ROOT=$(dirname $(dirname $(realpath "$0")))
 SRC=$(realpath "$1"); NAME=$2; PROP=$3; shift 3
 CHECKS=${@:-$PROP}
 WT=$(mktemp -d /tmp/gxwt-XXXXXX)
@@ -11,20 +12,20 @@ PYTHONPATH="$WT/src" /venv/bin/python "$SRC/demo.py" >/tmp/seed-demo-clean.log 2
 git -C "$WT" apply "$SRC/patch.diff" || { echo "PATCH DOES NOT APPLY to current HEAD"; exit 3; }
 PYTHONPATH="$WT/src" /venv/bin/python "$SRC/demo.py" >/tmp/seed-demo-patched.log 2>&1; demo_patched=$?
 echo "demo: clean exit=$demo_clean patched exit=$demo_patched"
-base=$(/verif/tools/baseline.sh "$WT" | head -1)
+base=$($ROOT/tools/baseline.sh "$WT" | head -1)
 echo "baseline: $base"
 declare -A RES
 for c in $CHECKS; do
-  out=$(cd /verif && GOTRANX_SRC="$WT/src" VERIF_NO_REPRO=1 ./check $c 2>&1)
+  out=$(cd $ROOT && GOTRANX_SRC="$WT/src" VERIF_NO_REPRO=1 ./check $c 2>&1)
   rc=$?
   nviol=$(echo "$out" | grep -c '^VIOLATION')
   first=$(echo "$out" | grep '^# '$c' finding' | head -2 | cut -c1-300 | tr '\n' ' ' | tr '"' "'")
   echo "check $c: exit=$rc violations=$nviol :: $first"
   RES[$c]="$rc|$nviol|$first"
 done
-mkdir -p /verif/seeded/$NAME
-cp "$SRC/patch.diff" "$SRC/demo.py" /verif/seeded/$NAME/
-[ -f "$SRC/NOTES.md" ] && cp "$SRC/NOTES.md" /verif/seeded/$NAME/
+mkdir -p $ROOT/seeded/$NAME
+cp "$SRC/patch.diff" "$SRC/demo.py" $ROOT/seeded/$NAME/
+[ -f "$SRC/NOTES.md" ] && cp "$SRC/NOTES.md" $ROOT/seeded/$NAME/
 {
  echo "{"
  echo " \"property\": \"$PROP\","
@@ -37,5 +38,5 @@ cp "$SRC/patch.diff" "$SRC/demo.py" /verif/seeded/$NAME/
  n=0; for c in $CHECKS; do IFS='|' read rc nv first <<< "${RES[$c]}"; [ $n -gt 0 ] && echo ","; echo -n "  \"$c\": {\"exit\": $rc, \"violations\": $nv, \"first\": \"$first\"}"; n=$((n+1)); done; echo
  echo " }"
  echo "}"
-} > /verif/seeded/$NAME/meta.json
-/venv/bin/python -c "import json; json.load(open('/verif/seeded/$NAME/meta.json'))" || echo "meta.json invalid"
+} > $ROOT/seeded/$NAME/meta.json
+/venv/bin/python -c "import json; json.load(open('$ROOT/seeded/$NAME/meta.json'))" || echo "meta.json invalid"
